@@ -130,6 +130,9 @@ func runC13(p *Prog, r *Result) {
 	r.Rule("R13b", "lexer token runes (regOps) ⊆ runes that trigger quoting; the unquoted return is guarded by !shellChars && !nonPrintable && !IsKeyword", 18)
 	r.Rule("R13c", "double-quote fallback escapes every rune special to the lexer inside double quotes, and the backslash", 2)
 
+	r.Rule("R13e", "every $'…' escape Quote writes has a case in the expansion side's escape switch, and fixed-width hexadecimal escapes are exactly as wide as the most the reader takes", 10)
+	checkEscapeAgreement(p, r, "R13e")
+
 	fd := p.FuncDecl("syntax", "Quote")
 	if fd == nil || fd.Body == nil {
 		r.Fatalf("anchor syntax.Quote not found")
@@ -506,6 +509,8 @@ func runC13(p *Prog, r *Result) {
 }
 
 var c13Controls = []Control{
+	{Name: "short-U-escape", Rule: "R13e", WantKey: "escape \\U width 6", File: "syntax/quote.go",
+		Mutate: ctlReplaceAnywhere(`"\\U%08x"`, `"\\U%06x"`)},
 	{Name: "brace-quoted-only-before-comma", Rule: "R13d", WantKey: "expansion trigger '{'", File: "syntax/quote.go",
 		Mutate: ctlReplaceAnywhere("\t\t\t// Might result in brace expansion.\n\t\t\t'{',\n", "")},
 	{Name: "posix-refusal-for-all-variants", Rule: "R13a", WantKey: "refusal quoteErrPOSIX", File: "syntax/quote.go",
